@@ -13,7 +13,7 @@ from mc.checks import stream_corpus as SC
 from mc.checks import codec_matrix as CM
 from mc.core import bfs as BFS
 from mc.core.bfs import ANY
-from mc.core.runner import Result, pyasn1_site, exc_text
+from mc.core.runner import guarded, Result, pyasn1_site, exc_text
 from mc.env import streams as ST
 from mc.model import x690 as M
 from mc.model import forms as F
@@ -285,6 +285,16 @@ def part_a(tier, i, n, seed, R):
             idx += 1
             if (idx + seed) % n != i:
                 continue
+            guarded(R, lambda: one_input(name, T, data, tier, R, idx, tmpdir, old),
+                    {'name': name, 'T': T, 'len': len(data)}, {'a'}, idx)
+    finally:
+        io.DEFAULT_BUFFER_SIZE = old
+        shutil.rmtree(tmpdir, ignore_errors=True)
+
+
+def one_input(name, T, data, tier, R, idx, tmpdir, old):
+    if True:
+        if True:
             spec = B.to_spec(T)
             small = len(data) <= 200
             bufs = (2, 3, 5, 16, old) if small else (old, 16 if tier != 'quick' else old)
@@ -322,9 +332,6 @@ def part_a(tier, i, n, seed, R):
                             R.features['a.kind:' + kind] += 1
             if idx % 37 == 0:
                 R.sample({'part': 'a', 'name': name, 'octets': len(data)})
-    finally:
-        io.DEFAULT_BUFFER_SIZE = old
-        shutil.rmtree(tmpdir, ignore_errors=True)
 
 
 def summarize(obs):
@@ -360,7 +367,7 @@ def part_b(tier, R):
 def shard(tier, i, n, seed):
     R = Result()
     if i == 0:
-        part_b(tier, R)
+        guarded(R, lambda: part_b(tier, R), {'part': 'b'}, {'b'}, 0)
     part_a(tier, i, n, seed, R)
     return R
 
